@@ -7,8 +7,6 @@ packetizer (plaintext and encrypted phase alike); banner deviations are byte edi
 Oracle: every exception the victim's public API raised and every exception ever stored for
 get_exception() is an SSHException, EOFError or OSError (socket error).
 """
-import re
-
 from vmc import core, enum, fixtures as F, connfix as CF, vthreading
 import paramiko
 from paramiko import (InteractiveQuery, AUTH_SUCCESSFUL, AUTH_FAILED, OPEN_SUCCEEDED,
@@ -142,7 +140,7 @@ def handler_noop(chan):
 
 def session(x, cfg):
     """The honest scripted session; runs phases up to cfg['until'] and then tears down."""
-    p, srv, tc, ts = x.p, x.srv, x.p.tc, x.p.ts
+    srv, tc, ts = x.srv, x.p.tc, x.p.ts
     until = PHASES.index(cfg.get("until", "teardown"))
 
     def phase(name):
@@ -232,10 +230,10 @@ def session(x, cfg):
         x.call(C, "close", c2.close)
     if phase("subsys"):
         c3 = x.call(C, "open_session", tc.open_session, timeout=5)
-        sc3 = x.call(S, "accept", ts.accept, 5)
+        x.call(S, "accept", ts.accept, 5)
         x.call(C, "invoke_subsystem", c3.invoke_subsystem, "nosuch", expect=(SSHException,))
     if phase("server-opens"):
-        xs = x.call(S, "open_x11_channel", ts.open_x11_channel, ("10.0.0.1", 6000))
+        x.call(S, "open_x11_channel", ts.open_x11_channel, ("10.0.0.1", 6000))
         x.call(C, "accept", tc.accept, 5)
         x.call(S, "open_forward_agent_channel", ts.open_forward_agent_channel)
         x.call(S, "open_forwarded_tcpip_channel", ts.open_forwarded_tcpip_channel, ("10.0.0.9", 5555),
